@@ -620,6 +620,10 @@ type verifC18Job struct {
 // loaded that the transaction expires before the chosen position is reached (see verifC18RunAdapter).
 const verifC18DeadlineMs = 80
 
+// verifC18Grace is how long a run may take to release its connection after the call returned before it counts as leaked;
+// a run that looks leaked is repeated (a real leak is deterministic, a slow machine is not).
+const verifC18Grace = 1200 * time.Millisecond
+
 func verifC18NewAdapter(r *sqlfake.Recorder, cfg string, kind string) *adapter {
 	return verifC18NewAdapterT(r, cfg, kind, verifC18DeadlineMs)
 }
@@ -651,7 +655,7 @@ func verifC18Call(run func(a *adapter) error, a *adapter) (err error, panicked s
 // verifC18Quiesce waits until database/sql has no connection checked out (its rollback-on-cancel goroutine
 // runs after the adapter method has returned) or the grace period is over (a leaked transaction).
 func verifC18Quiesce(db *sqlx.DB) int {
-	deadline := time.Now().Add(300 * time.Millisecond)
+	deadline := time.Now().Add(verifC18Grace)
 	for {
 		n := db.Stats().InUse
 		if n == 0 || time.Now().After(deadline) {
@@ -680,7 +684,7 @@ func verifC18Record(c *verifC18Case, cfg string, f sqlfake.Fault, r *sqlfake.Rec
 	if kind == "" {
 		kind = "none"
 	}
-	return map[string]any{"op": c.Op, "level": c.Level, "branch": c.P.branch(), "params": c.P, "cfg": cfg,
+	return map[string]any{"dialect": "mysql", "op": c.Op, "level": c.Level, "branch": c.P.branch(), "params": c.P, "cfg": cfg,
 		"k": f.K, "fault": kind, "applied": r.Applied(), "events": evs, "returned_err": err != nil || panicked != "",
 		"errtext": errtext, "panicked": panicked != "", "open_tx_after": r.OpenTx(), "inuse_after": inuse, "sql": sqls}
 }
@@ -714,7 +718,8 @@ func verifC18RunAdapter(j *verifC18Job) {
 		a = verifC18NewAdapterT(r, j.cfg, j.fault.Kind, ms_)
 		err, panicked = verifC18Call(j.c.Run, a)
 		inuse = verifC18Quiesce(a.db)
-		if attempt >= 3 || !verifC18Mistimed(j, r) {
+		leaked := inuse > 0 || r.OpenTx() > 0
+		if attempt >= 3 || (!verifC18Mistimed(j, r) && !(leaked && attempt < 2)) {
 			break
 		}
 		a.db.Close()
@@ -745,7 +750,7 @@ func verifC18Baseline(evs []sqlfake.Event) (n, nw int, at map[int]string, isq ma
 			at[e.Pos] = e.E
 			isq[e.Pos] = e.Q
 		}
-		if e.E == "STMT" && e.Ok && e.Verb != "SELECT" && e.Verb != "OTHER" {
+		if e.E == "STMT" && e.Ok && (e.Verb == "INSERT" || e.Verb == "UPDATE" || e.Verb == "DELETE" || e.Verb == "REPLACE") {
 			nw++
 		}
 	}
@@ -954,15 +959,19 @@ func TestVerifC18Store(tt *testing.T) {
 	}
 	cases := verifC18StoreCases(rand.New(rand.NewSource(seed+1000)), nvar)
 	run := func(c *verifC18Case, cfg string, f sqlfake.Fault) map[string]any {
-		r := sqlfake.New(f, c.Rules)
-		a := verifC18NewAdapter(r, cfg, f.Kind)
-		glob.db, glob.sqlTimeout, glob.txTimeout = a.db, a.sqlTimeout, a.txTimeout
-		glob.maxResults, glob.maxMessageResults, glob.version, glob.dbName = a.maxResults, a.maxMessageResults, a.version, a.dbName
-		err, panicked := verifC18Call(c.Run, glob)
-		inuse := verifC18Quiesce(a.db)
-		rec := verifC18Record(c, cfg, f, r, err, panicked, inuse)
-		a.db.Close()
-		return rec
+		for attempt := 0; ; attempt++ {
+			r := sqlfake.New(f, c.Rules)
+			a := verifC18NewAdapter(r, cfg, f.Kind)
+			glob.db, glob.sqlTimeout, glob.txTimeout = a.db, a.sqlTimeout, a.txTimeout
+			glob.maxResults, glob.maxMessageResults, glob.version, glob.dbName = a.maxResults, a.maxMessageResults, a.version, a.dbName
+			err, panicked := verifC18Call(c.Run, glob)
+			inuse := verifC18Quiesce(a.db)
+			rec := verifC18Record(c, cfg, f, r, err, panicked, inuse)
+			a.db.Close()
+			if (inuse == 0 && r.OpenTx() == 0) || attempt >= 2 {
+				return rec
+			}
+		}
 	}
 	var recs []map[string]any
 	for i := range cases {
